@@ -248,6 +248,59 @@ fn odd_names_and_clashes(ctx: &Ctx, bin: &Path) {
     }
 }
 
+/// The room for the output runs out in the middle of the file (a file size limit, with the signal that goes with it
+/// ignored, as under a quota or on a nearly full disk): the write fails half way, which is a failure like any other
+/// - reported, non-zero status - and never a truncated file behind a status of 0.
+fn size_limited_outputs(ctx: &Ctx, bin: &Path) {
+    let base = fw::verif_root().join("build").join(format!("scratch-c18-{}", std::process::id())).join("limited");
+    let decode_is = |p: &Path, img: &[u8]| -> bool { std::fs::read(p).ok().and_then(|t| ihex::decode(&t).ok()).map(|d| ihex::compare(&d, img).is_ok()).unwrap_or(false) };
+    let sources = [("image-of-80-KB", ".org 40000\nldi r16, 1\n.eseg\n.db 1,2,3\n"), ("image-over-1-MiB", "ldi r16, 0x5a\n.org 0x80010\nldi r17, 0xa5\n"), ("eeprom-of-60-KB", "nop\n.eseg\n.org 60000\n.db 7\n")];
+    let mut k = 0;
+    for (sname, text) in sources {
+        for blocks in [8u32, 64, 200] {
+            for with_o in [false, true] {
+                k += 1;
+                let root = base.join(format!("l{}", k));
+                let _ = std::fs::remove_dir_all(&root);
+                let (work, home) = (root.join("work"), root.join("home"));
+                if std::fs::create_dir_all(&work).is_err() || std::fs::create_dir_all(&home).is_err() {
+                    ctx.inconclusive("cannot create scratch directories");
+                    continue;
+                }
+                let src = work.join("prog.asm");
+                let _ = std::fs::write(&src, text);
+                let expected = fw::build_file(&src, &[home.join("cfg").join("avra-rs").join("includes")]);
+                let mut cmd = Command::new("sh");
+                cmd.arg("-c").arg(format!("trap '' XFSZ; ulimit -f {}; exec \"$@\"", blocks)).arg("sh").arg(bin).arg("-s").arg("prog.asm");
+                if with_o {
+                    cmd.arg("-o").arg("out.hex").arg("-e").arg("out.eep.hex");
+                }
+                let out = cmd.current_dir(&work).env("HOME", &home).env("XDG_CONFIG_HOME", home.join("cfg")).output();
+                ctx.eval(1);
+                ctx.count("runs:output-size-limited", 1);
+                ctx.distinct(fw::hash_str(&format!("limited-{}-{}-{}", sname, blocks, with_o)));
+                let (Ok(out), Outcome::Ok(exp)) = (out, &expected) else {
+                    ctx.inconclusive("cannot run the CLI binary under a file size limit");
+                    continue;
+                };
+                let (hex, eep) = if with_o { (work.join("out.hex"), work.join("out.eep.hex")) } else { (work.join("prog.hex"), work.join("prog.eep.hex")) };
+                let complete = decode_is(&hex, &exp.code) && (exp.eeprom.is_empty() || decode_is(&eep, &exp.eeprom));
+                let said = !out.stdout.is_empty() || !out.stderr.is_empty();
+                if out.status.code() == Some(0) && !complete {
+                    ctx.violation(
+                        "cli/write-failure/file-size-limit/exit-status-0",
+                        format!("{} under `ulimit -f {}`: exit status 0, but the output files do not hold the images ({} bytes in {})", sname, blocks, std::fs::metadata(&hex).map(|m| m.len()).unwrap_or(0), hex.file_name().unwrap().to_string_lossy()),
+                        json!({"size_limited": true, "source": text, "blocks": blocks, "exit": out.status.code(), "stdout": String::from_utf8_lossy(&out.stdout)}),
+                    );
+                } else if out.status.code() != Some(0) && !said {
+                    ctx.violation("cli/write-failure/file-size-limit/silent", format!("{} under `ulimit -f {}`: exit {:?} without a word", sname, blocks, out.status.code()), json!({"size_limited": true, "source": text, "blocks": blocks, "exit": out.status.code()}));
+                }
+                let _ = std::fs::remove_dir_all(&root);
+            }
+        }
+    }
+}
+
 struct Case<'a> {
     src: &'a Src,
     stem: &'static str,
@@ -546,6 +599,7 @@ pub fn run(ctx: &Ctx) -> i32 {
     }
     fw::par_for(cs.len() as u64, 1, |i| check(ctx, &bin, "dev", &cs[i as usize], i as usize, false));
     odd_names_and_clashes(ctx, &bin);
+    size_limited_outputs(ctx, &bin);
     if ctx.tier == Tier::Thorough {
         match build_cli(true) {
             Ok(rb) => fw::par_for(cs.len() as u64, 1, |i| check(ctx, &rb, "release", &cs[i as usize], 100_000 + i as usize, false)),
@@ -571,6 +625,12 @@ pub fn replay(ctx: &Ctx, case: &Value) -> i32 {
         Ok(b) => b,
         Err(_) => return 2,
     };
+    if case["size_limited"].as_bool() == Some(true) {
+        size_limited_outputs(ctx, &bin);
+        ctx.distinct(1);
+        ctx.distinct(2);
+        return fw::finish(ctx, "replay", &[]);
+    }
     if case.get("odd_name_bytes").is_some() || case.get("clash_args").is_some() {
         odd_names_and_clashes(ctx, &bin);
         ctx.distinct(1);
